@@ -1,5 +1,5 @@
 (* C08 — prose is left untouched: structure of the document built for every Markup node. *)
-From TV Require Import Conv Format Render RenderProofs SeqProofs MarkupProofs MathProofs ConvProofs.
+From TV Require Import Conv Format Render RenderProofs SeqProofs MarkupProofs MathProofs ConvProofs Layout SafeProofs Unbreak.
 
 Section Full.
   Variable parse : str -> tree.
@@ -63,3 +63,121 @@ Example C08_example :
               {| tab_spaces := 2; max_width := 0; blank_lines_upper_bound := 2; reorder_import_items := false |} ex_prose
             = FOk [97;32;98;10;99;10] n.
 Proof. eexists. vm_compute. reflexivity. Qed.
+
+(* ---- no rewrapping, the list half (Unbreak.v) ----
+   A document without hardline and flat_alt is printed on one line at every width.  Where breaks are suppressed (a
+   markup line that holds text, everything below a Math node: `c_supp c`) a list written on one source line
+   (`a_multiline = false`) that holds no comment is such a document as soon as its items are: array, dictionary,
+   destructuring, parameters and - since repair F44 - the items of an import; an unbreakable document is rigid (no
+   flat_alt), and a rigid document has one layout whatever the width.  What is not proved is the hereditary statement
+   for every converter (`C08_no_rewrapping_full`: below a suppressed context a tree without comments and without a node
+   written on several lines converts to a rigid document). *)
+Definition C08_no_rewrapping_full : Prop :=
+  forall swidth cfg t c r n d n',
+    c_supp c = true -> calm t = true ->
+    call (build swidth cfg t) r n = Ok (d, n') -> rigid d = true.
+
+(* a document without flat_alt has one layout: the same atoms, line breaks included, at every width *)
+Theorem C08_rigid_document_is_width_independent :
+  forall w1 w2 d es1 es2,
+    rigid d = true -> render_events w1 d = Some es1 -> render_events w2 d = Some es2 ->
+    map atom_of_event es1 = map atom_of_event es2.
+Proof. exact rigid_width_independent. Qed.
+Check C08_rigid_document_is_width_independent :
+  forall w1 w2 d es1 es2,
+    rigid d = true -> render_events w1 d = Some es1 -> render_events w2 d = Some es2 ->
+    map atom_of_event es1 = map atom_of_event es2.
+Print Assumptions C08_rigid_document_is_width_independent.
+
+Theorem C08_unbreakable_document_is_one_line :
+  forall width d es, unbreakable d = true -> render_events width d = Some es ->
+    Forall (fun e => match e with EText _ => True | ENewline _ => False end) es.
+Proof. exact unbreakable_renders_on_one_line. Qed.
+Check C08_unbreakable_document_is_one_line :
+  forall width d es, unbreakable d = true -> render_events width d = Some es ->
+    Forall (fun e => match e with EText _ => True | ENewline _ => False end) es.
+Print Assumptions C08_unbreakable_document_is_one_line.
+
+(* a flow without comments joins its pieces with single blanks (named and keyed pairs, spreads, unary operations,
+   let bindings, show rules, conditionals ..., the items of an import) *)
+Theorem C08_flow_without_comment_is_one_line :
+  forall swidth (S : Type) c kids (s0 : S) producer,
+    Forall (fun n => is_comment_b n = false) kids ->
+    (forall s c' n, c_supp c' = c_supp c -> In n kids ->
+       post (producer s c' n) (fun r => match snd r with Some it => unbreakable (fi_doc it) = true | None => True end)) ->
+    post (flow_like_iter swidth c kids s0 producer) (fun d => unbreakable d = true).
+Proof. exact flow_like_iter_unb. Qed.
+Print Assumptions C08_flow_without_comment_is_one_line.
+
+(* a list stylist that sees no comment, whatever the checker, stays clean; with the fold style Always it prints an
+   unbreakable document *)
+Theorem C08_list_without_comment_is_one_line :
+  forall swidth tab l0 c nodes checker sty,
+    clean l0 -> l_fold l0 = Always ->
+    Forall (fun n => is_comment_b n = false) nodes ->
+    (forall c' n, c_supp c' = c_supp c -> In n nodes ->
+       post (checker c' n) (fun o => match o with Some d => unbreakable d = true | None => True end)) ->
+    post (lst_process swidth l0 c nodes checker) (fun l => unbreakable (lst_print_doc swidth tab l sty) = true).
+Proof.
+  intros swidth tab l0 c nodes checker sty H0 Hf Hnc Hck. eapply post_weaken; [apply lst_process_unb; eassumption|].
+  intros l [Hc Hfl]. apply lst_print_always_unb; [exact Hc|]. rewrite Hfl. exact Hf.
+Qed.
+Print Assumptions C08_list_without_comment_is_one_line.
+
+(* The hereditary statement for a sub-language (Unbreak.rs): every kind of code except code blocks, content blocks and
+   the markup and math constructs - tokens, named/keyed pairs, spreads, unary and binary operations, field accesses,
+   calls with their argument lists (not `table`/`grid`), closures, let bindings, destructuring assignments, set and show
+   rules, context/if/while/for/return/include, arrays, dictionaries, destructuring patterns, parameter lists,
+   parenthesized expressions, imports with their items - provided no node is written on several source lines and none
+   is a comment or a paragraph break.  Where breaks are suppressed every request the converters make on such a tree
+   yields an unbreakable document, so it is printed on one line at every width.  Partial: markup and math constructs,
+   code and content blocks, raw elements and table calls are outside `rs`. *)
+Theorem C08_suppressed_sublanguage_one_line_partial :
+  forall swidth cfg t r n d n',
+    rs t = true -> ufit r t = true -> c_supp (req_ctx r) = true ->
+    call (build swidth cfg t) r n = Ok (d, n') -> unbreakable d = true.
+Proof. exact suppressed_sublanguage_unbreakable. Qed.
+Check C08_suppressed_sublanguage_one_line_partial :
+  forall swidth cfg t r n d n',
+    rs t = true -> ufit r t = true -> c_supp (req_ctx r) = true ->
+    call (build swidth cfg t) r n = Ok (d, n') -> unbreakable d = true.
+Print Assumptions C08_suppressed_sublanguage_one_line_partial.
+
+(* non-vacuity (the input of F44): `x #import "m": c, b y` stays on one line at width 0 *)
+Definition ex_import_line : tree :=
+  Inner KMarkup [Leaf KText [120] no_attrs; Leaf KSpace [32] no_attrs; Leaf KHash [35] no_attrs;
+    Inner KModuleImport [Leaf KImport [105;109;112;111;114;116] no_attrs; Leaf KSpace [32] no_attrs;
+      Leaf KStr [34;109;34] no_attrs; Leaf KColon [58] no_attrs; Leaf KSpace [32] no_attrs;
+      Inner KImportItems [Inner KImportItemPath [Leaf KIdent [99] no_attrs] no_attrs; Leaf KComma [44] no_attrs;
+                          Leaf KSpace [32] no_attrs; Inner KImportItemPath [Leaf KIdent [98] no_attrs] no_attrs] no_attrs] no_attrs;
+    Leaf KSpace [32] no_attrs; Leaf KText [121] no_attrs] no_attrs.
+Example C08_example_import_on_a_prose_line :
+  exists n, format_source (fun s => N.of_nat (length s))
+              {| tab_spaces := 2; max_width := 0; blank_lines_upper_bound := 2; reorder_import_items := false |} ex_import_line
+            = FOk [120;32;35;105;109;112;111;114;116;32;34;109;34;58;32;99;44;32;98;32;121;10] n.
+Proof. eexists. vm_compute. reflexivity. Qed.
+
+(* the import statement of that line is in the sub-language, and the theorem applies to it *)
+Definition ex_import_stmt : tree :=
+  match ex_import_line with Inner _ [_; _; _; imp; _; _] _ => imp | t => t end.
+Example C08_example_sublanguage :
+  rs ex_import_stmt = true /\ ufit (RExpr (mk_ctx LCode true)) ex_import_stmt = true.
+Proof. split; vm_compute; reflexivity. Qed.
+
+(* a call with an argument list that holds an array: `f(a, (1, 2))` is in the sub-language, and converted in a context
+   with breaks suppressed it is rendered on one line even at width 0 *)
+Definition ex_call : tree :=
+  Inner KFuncCall [Leaf KIdent [102] no_attrs;
+    Inner KArgs [Leaf KLeftParen [40] no_attrs; Leaf KIdent [97] no_attrs; Leaf KComma [44] no_attrs; Leaf KSpace [32] no_attrs;
+      Inner KArray [Leaf KLeftParen [40] no_attrs; Leaf KInt [49] no_attrs; Leaf KComma [44] no_attrs; Leaf KSpace [32] no_attrs;
+                    Leaf KInt [50] no_attrs; Leaf KRightParen [41] no_attrs] no_attrs;
+      Leaf KRightParen [41] no_attrs] no_attrs] no_attrs.
+Example C08_example_call_one_line :
+  rs ex_call = true /\
+  match call (build (fun s => N.of_nat (length s)) CliGen.cfg_default ex_call) (RExpr (mk_ctx LCode true)) 0 with
+  | Ok (d, _) => unbreakable d = true /\
+                 render_events 0 d = Some [EText [102]; EText [40]; EText [97]; EText [44]; EText [32]; EText [40]; EText [49];
+                                           EText [44]; EText [32]; EText [50]; EText [41]; EText [41]]
+  | Panic _ => False
+  end.
+Proof. vm_compute. split; [reflexivity|split; reflexivity]. Qed.
